@@ -14,7 +14,7 @@ PROPS = {
     "C01": {
         # a design built through a reconnection history or with adversarial names and then
         # exported with the wrong connectivity is a C01 violation as well
-        "workloads": [("conn", "c01", 7000, 120000, None), ("conn", "c04", 2000, 30000, None, ("C04",)), ("conn", "c05", 2000, 30000, None, ("C05",))],
+        "workloads": [("conn", "c01", 7000, 120000, None), ("conn", "c04", 2000, 30000, None, ("C04",)), ("conn", "c05", 2000, 30000, None, ("C05",)), ("hist", "c08", 600, 8000, None, ("C08",))],
         "rule": (
             "one case = a generated valid design program (model-guided generator, swarm configuration per run) "
             "executed under a drawn SimSet policy and, in half the runs, after a drawn history prefix; "
@@ -82,7 +82,8 @@ PROPS = {
         ],
     },
     "C07": {
-        "workloads": [("hist", "c07", 2500, 40000, None)],
+        # a result that depends on an earlier *failed* call is a history dependence too
+        "workloads": [("hist", "c07", 2200, 36000, None), ("hist", "c08", 700, 10000, None, ("C08",))],
         "rule": (
             "one case = a session: a generated DAG library of 2-6 modules with shared sub-modules, bundle ports and port references, "
             "interleaved with elaborate / to_proto / netlist calls on single targets and lists, repeated, plus refused late edits; "
